@@ -4,6 +4,8 @@ import (
 	"errors"
 	"fmt"
 	"math"
+	"reflect"
+	"sort"
 	"strings"
 	"testing"
 
@@ -28,9 +30,13 @@ type c07Lit struct {
 
 type c07Case struct {
 	Lits []c07Lit `json:"lits"`
+	// Ctx places the literals: 0 = top-level print(...) statements; 1 = inside a
+	// function body after blank lines; 2 = inside nested blocks with comments and
+	// blank lines; 3 = as initialisers and a return value inside nested functions.
+	Ctx int `json:"ctx,omitempty"`
 }
 
-var c07Cfgs = []Cfg{{}, {Pretty: true, Indent: 99}, {Pretty: true, Indent: -1, NoSemi: true}}
+var c07Cfgs = []Cfg{{}, {Pretty: true, Indent: 99}, {Pretty: true, Indent: -1, NoSemi: true}, {Pretty: true, Indent: 4}, {Pretty: true, Indent: 8, NoSemi: true}}
 
 var errRefLimit = errors.New("reference parser limitation")
 
@@ -60,38 +66,65 @@ func litValues(src string) (vals []string, err error) {
 		}
 		return b.String()
 	}
-	var walk func(e gast.Expression)
-	walk = func(e gast.Expression) {
-		switch v := e.(type) {
-		case *gast.StringLiteral:
-			vals = append(vals, enc(v.Value))
-		case *gast.NumberLiteral:
-			var f float64
-			switch n := v.Value.(type) {
-			case int64:
-				f = float64(n)
-			case float64:
-				f = n
-			default:
-				vals = append(vals, fmt.Sprintf("n:?%T", v.Value))
+	// every literal of the program, wherever it stands, in source order
+	type found struct {
+		idx int
+		val string
+	}
+	var all []found
+	seen := map[uintptr]bool{}
+	var walk func(v reflect.Value)
+	walk = func(v reflect.Value) {
+		switch v.Kind() {
+		case reflect.Interface:
+			if !v.IsNil() {
+				walk(v.Elem())
+			}
+		case reflect.Ptr:
+			if v.IsNil() || seen[v.Pointer()] {
 				return
 			}
-			vals = append(vals, fmt.Sprintf("n:%016x", math.Float64bits(f)))
-		case *gast.TemplateLiteral:
-			for _, el := range v.Elements {
-				vals = append(vals, "t"+enc(el.Parsed))
+			seen[v.Pointer()] = true
+			switch n := v.Interface().(type) {
+			case *gast.StringLiteral:
+				all = append(all, found{int(n.Idx0()), enc(n.Value)})
+				return
+			case *gast.NumberLiteral:
+				var f float64
+				switch x := n.Value.(type) {
+				case int64:
+					f = float64(x)
+				case float64:
+					f = x
+				default:
+					all = append(all, found{int(n.Idx0()), fmt.Sprintf("n:?%T", n.Value)})
+					return
+				}
+				all = append(all, found{int(n.Idx0()), fmt.Sprintf("n:%016x", math.Float64bits(f))})
+				return
+			case *gast.TemplateLiteral:
+				for k, el := range n.Elements {
+					all = append(all, found{int(n.Idx0()) + k, "t" + enc(el.Parsed)})
+				}
+				return
 			}
-		case *gast.CallExpression:
-			walk(v.Callee)
-			for _, a := range v.ArgumentList {
-				walk(a)
+			walk(v.Elem())
+		case reflect.Struct:
+			for i := 0; i < v.NumField(); i++ {
+				if v.Type().Field(i).IsExported() {
+					walk(v.Field(i))
+				}
+			}
+		case reflect.Slice:
+			for i := 0; i < v.Len(); i++ {
+				walk(v.Index(i))
 			}
 		}
 	}
-	for _, st := range prog.Body {
-		if es, ok := st.(*gast.ExpressionStatement); ok {
-			walk(es.Expression)
-		}
+	walk(reflect.ValueOf(prog.Body))
+	sort.SliceStable(all, func(i, j int) bool { return all[i].idx < all[j].idx })
+	for _, f := range all {
+		vals = append(vals, f.val)
 	}
 	return vals, nil
 }
@@ -105,7 +138,33 @@ func unitsKey(u []uint16) string {
 	return b.String()
 }
 
-func c07Program(lits []c07Lit) string {
+func c07Program(lits []c07Lit, ctx int) string {
+	flat := c07Flat(lits)
+	switch ctx {
+	case 1:
+		return "function f0() {\n\n\n" + flat + "}\nf0();\n"
+	case 2:
+		return "let go = true;\nif (go) {\n\n  // first\n\n  {\n\n\n" + flat + "\n  }\n\n}\n"
+	case 3:
+		var b strings.Builder
+		b.WriteString("function outer() {\n\n  function inner() {\n\n")
+		for i, l := range lits {
+			fmt.Fprintf(&b, "    let v%d = %s;\n\n", i, l.Src)
+		}
+		b.WriteString("    return [")
+		for i := range lits {
+			if i > 0 {
+				b.WriteString(", ")
+			}
+			fmt.Fprintf(&b, "v%d", i)
+		}
+		b.WriteString("];\n  }\n\n  return inner();\n}\nprint(outer());\n")
+		return b.String()
+	}
+	return flat
+}
+
+func c07Flat(lits []c07Lit) string {
 	var b strings.Builder
 	for i := 0; i < len(lits); i += 8 {
 		b.WriteString("print(")
@@ -121,7 +180,7 @@ func c07Program(lits []c07Lit) string {
 }
 
 func c07Check(c c07Case, rec *evid.Recorder) *Fail {
-	src := c07Program(c.Lits)
+	src := c07Program(c.Lits, c.Ctx)
 	want, err := litValues(src)
 	refLimited := false
 	if err != nil {
@@ -174,7 +233,7 @@ func c07Check(c c07Case, rec *evid.Recorder) *Fail {
 				rest = append(rest, l)
 			}
 			if len(rest) > 0 && len(rest) < len(c.Lits) {
-				return c07Check(c07Case{Lits: rest}, rec)
+				return c07Check(c07Case{Lits: rest, Ctx: c.Ctx}, rec)
 			}
 		}
 		rec.Discard("literal program rejected by xjs: " + msg)
@@ -308,7 +367,7 @@ func c07Gen(t *rapid.T, rec *evid.Recorder) c07Case {
 			lits = append(lits, c07Lit{Src: c07NumText(r)})
 		}
 	}
-	return c07Case{Lits: lits}
+	return c07Case{Lits: lits, Ctx: r.Intn(4, "ctx")}
 }
 
 // exhaustive single-piece strings, partitioned over the shards in batches.
